@@ -115,6 +115,7 @@ type State struct {
 	notes   map[string]bool
 	dead    bool
 	steps   int
+	havocAll string // non-empty: the whole heap was havocked (by what)
 }
 
 type DryInfo struct {
